@@ -302,6 +302,11 @@ fn zoo(report: &Report, k: u32) {
         templates.push(format!("{{{{ s | {f} }}}}|{{{{ a | {f} }}}}|{{{{ n | {f} }}}}"));
         templates.push(format!("{{{{ s | {f}: n }}}}|{{{{ s | {f}: s2 }}}}|{{{{ a | {f}: s }}}}|{{{{ n | {f}: m }}}}|{{{{ ts | {f}: f }}}}"));
         templates.push(format!("{{{{ s | {f}: n, m }}}}|{{{{ s | {f}: s2, s }}}}|{{{{ a | {f}: s, t }}}}|{{{{ s | {f}: m, s2 }}}}"));
+        // a literal input with literal and variable arguments mixed in every order: nothing about such a chain is
+        // constant as long as one argument is a variable
+        templates.push(format!("{{{{ 'a,b-c a,b' | {f}: s2, ',' }}}}|{{{{ 'a,b-c a,b' | {f}: ',', s2 }}}}"));
+        templates.push(format!("{{{{ 'a,b-c a,b' | {f}: n, 1 }}}}|{{{{ 'a,b-c a,b' | {f}: 1, n }}}}"));
+        templates.push(format!("{{{{ 7 | {f}: m, 2 }}}}|{{{{ 7 | {f}: 2, m }}}}|{{{{ 'a,b-c a,b' | {f}: s2 }}}}|{{{{ 7 | {f}: m }}}}"));
     }
     let o = |pairs: &[(&str, V)]| V::obj(pairs);
     let datas: Vec<V> = vec![
@@ -383,7 +388,7 @@ fn zoo(report: &Report, k: u32) {
         report.transitions.fetch_add(calls.load(Ordering::Relaxed), Ordering::Relaxed);
         report.traces.fetch_add(calls.load(Ordering::Relaxed), Ordering::Relaxed);
         report.nontrivial.fetch_add(nontriv.load(Ordering::Relaxed), Ordering::Relaxed);
-        report.family(FamilyStat { name, cases: total, nontrivial: nontriv.load(Ordering::Relaxed), skipped: 0, note: format!("{} templates ({} constructs with dynamic arguments + {} registered filters x 3 arities) x all histories of <= {k} of {} data objects on one parsed template; render calls={}", templates.len(), templates.len() - 3 * filters.len(), filters.len(), datas.len(), calls.load(Ordering::Relaxed)) });
+        report.family(FamilyStat { name, cases: total, nontrivial: nontriv.load(Ordering::Relaxed), skipped: 0, note: format!("{} templates ({} constructs with dynamic arguments + {} registered filters x 6 argument shapes) x all histories of <= {k} of {} data objects on one parsed template; render calls={}", templates.len(), templates.len() - 6 * filters.len(), filters.len(), datas.len(), calls.load(Ordering::Relaxed)) });
     }
 }
 
